@@ -37,4 +37,5 @@ var _ = item.NewItem
 //@     (forall s int :: 0 <= s && s < n ==> lr0.LR0Closure[s] == old(lr0.LR0Closure[s]))
 //@ ensures [C09,C01,C02,C06] n < 0 ==> n == -1 && lr0.LR0Closure == old(lr0.LR0Closure) && needCheck
 //@ ensures [C09,C01,C02,C06] !needCheck ==> n >= 0
+//@ ensures [C09,C01,C02,C06] old(len(lr0.LR0Closure)) == 0 ==> n == 0
 //@ modifies lr0.LR0Closure, IC.Index
